@@ -224,6 +224,9 @@ def malformed(r, w):
 def generate(ctx):
     r = ctx.rng
     cases = [witness_zero_piece_length()]
+    from props import c13                      # two hostile listings (the C13 witnesses) also run here
+    for k in (0, 4):
+        cases.append(c13.hostile_case(r, c13.kinds(b"root")[k], 0, "content"))
     want = ctx.n(420, 9000)
     # every perturbation at least once per (single|multi), modes cycling
     k = 0
